@@ -1,2 +1,7 @@
-import Adsg.Proofs.Closure
-#print axioms Adsg.mem_closure_iff_reach
+import Adsg.Props.C14
+#print axioms Adsg.C14.neighborhood_perm_box
+#print axioms Adsg.C14.fast_sound
+#print axioms Adsg.C14.fast_valid_unchanged
+#print axioms Adsg.C14.fast_reaches
+#print axioms Adsg.C14.fast_cover
+#print axioms Adsg.C14.fast_total
